@@ -10,10 +10,18 @@ CHECKS = {
             "runtime monitor: generated programs executed, proved and verified by the real pipeline under all four option sets; oracle at the prove/verify API",
             "Held on K generated (program, inputs, option set) executions covering the listed VM opcodes, padding regimes, trace lengths and stack-depth classes; completeness is decided only over what the generators produced.",
             "trusts winterfell as part of the system under test; generators in harness/src/gen.rs", "DESIGN.md §4 C01"),
+    "C02": ("fault_enumeration",
+            "fault injection at the verify() boundary with an accept/reject/panic oracle: single-field statement alterations (constructors, stack_mut, crafted bytes), per-region proof byte corruption, truncation, hash-tag relabelling, deterministic enumeration of the proof context bytes, honest proofs under non-accepted options",
+            "Every injected alteration of K honest tuples was rejected (or is reported); evidence lists alteration kinds, regions, outcomes and equivalent-statement cases that were skipped.",
+            "binding under single alterations only; adaptive-prover soundness is cryptographic and not observable", "DESIGN.md §4 C02"),
     "C03": ("exploration",
             "trace-specification monitor (T-air/T-shape): every AIR transition constraint and boundary assertion evaluated on every row of every generated execution, several random challenges in two extension fields, three capacity hints; rel + debug-assertions lanes",
             "Held on K honest traces; evidence lists opcodes seen on rows, regimes, lengths; challenges are sampled.",
             "ProcessorAir::evaluate_transition/get_assertions are the executable specification", "DESIGN.md §4 C03"),
+    "C14": ("exploration",
+            "runtime monitor: configuration lattice (re-run, tracing, capacity hints, debug-mode assembly, decorator-stripped source) with cell-by-cell trace comparison; random next()/back() walks of the step iterator checked against the trace row of the same clock (stack incl. overflow model rebuilt from the trace, fmp, ctx, memory-chiplet history); CLK rows",
+            "Held on K programs x configurations and K iterator states visited in both directions; evidence lists configurations, direction counts, deep-stack states.",
+            "the trace of a plain execute() run is the reference; deep stack compared only in the root context", "DESIGN.md §4 C14"),
     "C15": ("exploration",
             "runtime monitor with a recording host: limits swept around the natural cycle count from an unlimited run; offline check of host callback clocks (prefix + none after the limit); options grid",
             "Held on K (program, limit) runs covering every relation of the limit to the natural cycle count, non-terminating programs up to 2^16 cycles, and the options grid.",
